@@ -130,8 +130,19 @@ def url_observation(rname, w):
     from vlib import routes
     try:
         u = routes.ROUTES[rname].fn(w)
-        return (str(u), u.raw_user, u.raw_password, u.raw_host, u.explicit_port, u.raw_path, u.raw_query_string, u.raw_fragment,
-                u.path, u.query_string, u.fragment)
+        first = (str(u), u.raw_user, u.raw_password, u.raw_host, u.explicit_port, u.raw_path, u.raw_query_string, u.raw_fragment,
+                 u.path, u.query_string, u.fragment)
+    except Exception as e:  # noqa: BLE001
+        return ("exc", exc_class(type(e).__name__))
+    # the decoded views once more on a second object of the same call, read in the opposite order (a backend-specific shortcut
+    # between sibling accessors shows only for one reading order)
+    v = routes.ROUTES[rname].fn(w)
+    return first + tuple(_read(v, a) for a in ("path_safe", "path", "fragment", "query_string", "password", "user", "host", "path_qs"))
+
+
+def _read(u, attr):
+    try:
+        return getattr(u, attr)
     except Exception as e:  # noqa: BLE001
         return ("exc", exc_class(type(e).__name__))
 
